@@ -153,20 +153,23 @@ Section Inv.
         symmetry. apply B. assumption.
   Qed.
 
-  Lemma rewind_ok l offset : linv l -> 0 <= offset <= slen l ->
+  Lemma rewind_ok_gen l offset :
+    bytes_ok (l_src l) -> 0 <= l_off l <= slen l ->
+    (lx_token_line lx = true -> l_line l = 1 + count_nl (firstn (Z.to_nat (l_off l)) (l_src l))) ->
+    0 <= offset <= slen l ->
     linv (rewind lx l offset) /\ same l (rewind lx l offset) /\ l_off (rewind lx l offset) = offset.
   Proof.
-    intros H Ho. pose proof (li_off l H) as Hoff. unfold rewind.
+    intros Hsrc Hoff Hline Ho. unfold rewind.
     set (offset' := if offset <? l_off l then offset else if offset >? slen l then slen l else offset).
     assert (Eo : offset' = offset).
     { subst offset'. destruct (offset <? l_off l); [reflexivity|]. rewrite Z.gtb_ltb. destruct (Z.ltb_spec (slen l) offset); [lia|reflexivity]. }
     destruct (read_char (scan_bytes (lx_tables lx)) offset' (skipn (Z.to_nat offset') (l_src l))) as [[ch scan] rest'] eqn:Er.
     split; [|split; [unfold same; cbn; auto|cbn; assumption]].
     constructor; cbn [l_src l_off l_scan l_ch l_rest l_line l_lineoff].
-    - exact (li_src l H).
+    - exact Hsrc.
     - unfold slen in *. cbn [l_src]. lia.
     - exact Er.
-    - intros Htl. rewrite Htl. rewrite (li_line l H Htl). rewrite Eo.
+    - intros Htl. rewrite Htl. rewrite (Hline Htl). rewrite Eo.
       destruct (Z.ltb_spec offset (l_off l)) as [Hlt|Hge].
       + assert (E : firstn (Z.to_nat (l_off l)) (l_src l) = firstn (Z.to_nat offset) (l_src l) ++ sub (l_src l) offset (l_off l)).
         { unfold sub. replace (Z.to_nat (l_off l)) with (Z.to_nat offset + Z.to_nat (l_off l - offset))%nat by lia. apply firstn_add'. }
@@ -176,6 +179,24 @@ Section Inv.
         rewrite E, count_nl_app. lia.
     - intros Htc. rewrite Htc. reflexivity.
   Qed.
+
+  Lemma rewind_ok l offset : linv l -> 0 <= offset <= slen l ->
+    linv (rewind lx l offset) /\ same l (rewind lx l offset) /\ l_off (rewind lx l offset) = offset.
+  Proof. intros H Ho. apply rewind_ok_gen; try assumption; [exact (li_src l H)|exact (li_off l H)|exact (li_line l H)]. Qed.
+
+  Lemma init_ok src : bytes_ok src -> linv (init lx src) /\ l_src (init lx src) = src /\ l_off (init lx src) = 0.
+  Proof.
+    intros Hsrc. unfold init.
+    destruct (rewind_ok_gen (mkL src 0 0 0 src 0 1 1 0 1) 0) as (A & (B & _) & C); cbn [l_src l_off l_line]; try assumption.
+    - unfold slen. cbn [l_src]. lia.
+    - intros _. reflexivity.
+    - unfold slen. cbn [l_src]. lia.
+    - split; [assumption|]. split; assumption.
+  Qed.
+
+  Lemma linv_tokfields l a b c : linv l ->
+    linv (mkL (l_src l) (l_off l) (l_scan l) (l_ch l) (l_rest l) a (l_line l) b (l_lineoff l) c).
+  Proof. intros [H1 H2 H3 H4 H5]. constructor; cbn; assumption. Qed.
 End Inv.
 
 (* ------------------------------------------------------------------ the end-of-input run *)
@@ -336,3 +357,331 @@ Section Main.
         split; [reflexivity|]. split; [assumption|]. split; [assumption|]. split; [apply same_refl|]. split; [lia|assumption].
   Qed.
 End Main.
+
+(* ------------------------------------------------------------------ what follows the DFA loop *)
+Lemma sub_same s a : sub s a a = [].
+Proof. unfold sub. replace (Z.to_nat (a - a)) with 0%nat by lia. reflexivity. Qed.
+
+Lemma sub_nil a b : sub [] a b = [].
+Proof. unfold sub. rewrite skipn_nil, firstn_nil. reflexivity. Qed.
+
+Lemma kw_none lx a h txt : assocZ a (lx_kw lx) = None -> kw_switch lx a h txt = a.
+Proof. intros E. unfold kw_switch. rewrite E. reflexivity. Qed.
+
+Section Next.
+  Variable lx : lexer.
+  Hypothesis Hwf : wf_lexer_tables lx = true.
+  Notation t := (lx_tables lx).
+
+  (* after progress: whatever finish decides, the token is non-empty *)
+  Lemma finish_progress st l h bk :
+    linv lx l -> 0 <= l_tokoff l -> l_tokoff l < l_off l -> bk_ok l bk ->
+    let '(tok, sp, l3) := finish lx st l h bk in
+    linv lx l3 /\ same l l3 /\ l_tokoff l3 < l_off l3.
+  Proof.
+    intros Hl Ht Hp Hbk. pose proof (li_off lx l Hl) as Hoff.
+    assert (Hneq : (l_off l =? l_tokoff l) = false) by (apply Z.eqb_neq; lia).
+    assert (Hrew : forall a o hh, bk = Some (a, o, hh) ->
+              linv lx (rewind lx l o) /\ same l (rewind lx l o) /\ l_tokoff (rewind lx l o) < l_off (rewind lx l o)).
+    { intros a o hh E. subst bk. cbn in Hbk. destruct (rewind_ok lx l o Hl ltac:(lia)) as (A & B & C).
+      split; [assumption|]. split; [assumption|]. destruct B as (_ & B & _). rewrite B, C. lia. }
+    unfold finish. rewrite Hneq.
+    destruct (lx_rule_token lx) as [|r0 rt].
+    - destruct (kw_switch lx (action_start t - st) h (sub (l_src l) (l_tokoff l) (l_off l)) =? lx_invalid lx).
+      + destruct (has_bt lx); [destruct bk as [[[a o] hh]|]|].
+        * exact (Hrew a o hh eq_refl).
+        * split; [assumption|]. split; [apply same_refl|assumption].
+        * split; [assumption|]. split; [apply same_refl|assumption].
+      + split; [assumption|]. split; [apply same_refl|assumption].
+    - destruct (kw_switch lx (action_start t - st) h (sub (l_src l) (l_tokoff l) (l_off l)) =? 0).
+      + destruct (has_bt lx); [destruct bk as [[[a o] hh]|]|].
+        * exact (Hrew a o hh eq_refl).
+        * split; [assumption|]. split; [apply same_refl|assumption].
+        * split; [assumption|]. split; [apply same_refl|assumption].
+      + split; [assumption|]. split; [apply same_refl|assumption].
+  Qed.
+
+  (* nothing consumed, a character is available, the start state says "no match": one character is skipped *)
+  Lemma finish_stuck l h :
+    linv lx l -> l_off l = l_tokoff l -> l_off l < slen l ->
+    exists tok, finish lx (action_start t - inv_act lx) l h None = (tok, false, rewind lx l (l_scan l)).
+  Proof.
+    intros Hl He Hlt. destruct (wf_parts lx Hwf) as (_ & _ & _ & _ & _ & _ & _ & _ & _ & Hkw & Hinv).
+    assert (Heq : (l_off l =? l_tokoff l) = true) by (apply Z.eqb_eq; assumption).
+    unfold finish. replace (action_start t - (action_start t - inv_act lx)) with (inv_act lx) by lia.
+    rewrite (kw_none lx _ _ _ Hkw), Heq. unfold inv_act in *.
+    destruct (lx_rule_token lx) as [|r0 rt].
+    - rewrite Z.eqb_refl. destruct (has_bt lx); eexists; reflexivity.
+    - rewrite Z.eqb_refl. destruct (has_bt lx); eexists; reflexivity.
+  Qed.
+
+  (* the decision taken at the end of the input when nothing was consumed: it does not depend on the input *)
+  Definition efin (c : Z) (b : option Z) : Z * bool :=
+    let act0 := action_start t - c in
+    match lx_rule_token lx with
+    | _ :: _ =>
+        let rule := kw_switch lx act0 0 [] in
+        if rule =? 0 then
+          match (if has_bt lx then b else None) with
+          | Some brule => let rule' := kw_switch lx brule 0 [] in (nth (Z.to_nat rule') (lx_rule_token lx) (-1), memZ rule' (lx_space lx))
+          | None => (0, false)
+          end
+        else (nth (Z.to_nat rule) (lx_rule_token lx) (-1), memZ rule (lx_space lx))
+    | [] =>
+        let tok := kw_switch lx act0 0 [] in
+        if tok =? lx_invalid lx then
+          match (if has_bt lx then b else None) with
+          | Some btok => let tok' := kw_switch lx btok 0 [] in (tok', memZ tok' (lx_space lx))
+          | None => (0, false)
+          end
+        else (tok, memZ tok (lx_space lx))
+    end.
+
+  Lemma finish_end_formula c b l :
+    l_ch l = -1 -> l_off l = l_tokoff l -> l_scan l = l_off l ->
+    (forall l', l' = l \/ l' = rewind lx l (l_off l) -> sub (l_src l') (l_tokoff l') (l_off l') = []) ->
+    exists l3, finish lx c l 0 (lift_backup b (l_off l) 0 None) = (fst (efin c b), snd (efin c b), l3) /\
+               (l3 = l \/ l3 = rewind lx l (l_off l)).
+  Proof.
+    intros Hch He Hsc Htext.
+    assert (Heq : (l_off l =? l_tokoff l) = true) by (apply Z.eqb_eq; assumption).
+    unfold finish, efin. rewrite Heq, Hch, Hsc, (Htext l (or_introl eq_refl)). cbn [Z.eqb].
+    destruct (lx_rule_token lx) as [|r0 rt].
+    - destruct (kw_switch lx (action_start t - c) 0 [] =? lx_invalid lx).
+      + destruct (has_bt lx); [destruct b as [a|]|]; cbn [lift_backup fst snd].
+        * rewrite (Htext _ (or_intror eq_refl)). eexists; split; [reflexivity|right; reflexivity].
+        * eexists; split; [reflexivity|right; reflexivity].
+        * destruct b; cbn [lift_backup]; eexists; (split; [reflexivity|right; reflexivity]).
+      + eexists; split; [reflexivity|left; reflexivity].
+    - destruct (kw_switch lx (action_start t - c) 0 [] =? 0).
+      + destruct (has_bt lx); [destruct b as [a|]|]; cbn [lift_backup fst snd].
+        * rewrite (Htext _ (or_intror eq_refl)). eexists; split; [reflexivity|right; reflexivity].
+        * eexists; split; [reflexivity|right; reflexivity].
+        * destruct b; cbn [lift_backup]; eexists; (split; [reflexivity|right; reflexivity]).
+      + eexists; split; [reflexivity|left; reflexivity].
+  Qed.
+End Next.
+
+(* ------------------------------------------------------------------ one attempt of Next, then Next *)
+Section Next2.
+  Variable lx : lexer.
+  Hypothesis Hwf : wf_lexer_tables lx = true.
+  Variable sc : Z.
+  Notation t := (lx_tables lx).
+  Hypothesis Hsc : In (nthZ (state_map t) sc) (state_map t).
+  Notation start := (nthZ (state_map t) sc).
+
+  Definition tok_start (l : lstate) : lstate :=
+    mkL (l_src l) (l_off l) (l_scan l) (l_ch l) (l_rest l) (l_off l) (l_line l) (l_line l) (l_lineoff l) (l_off l - l_lineoff l + 1).
+  Definition inner (l : lstate) : nat := S (S (Z.to_nat (slen l - l_off l) + Z.to_nat (nstates t))).
+
+  Lemma next_tok_unfold f l :
+    next_tok (S f) lx sc l =
+    match dfa_loop (inner l) lx start (tok_start l) 0 None with
+    | None => None
+    | Some (state, l2, hash, backup) =>
+        let '(tok, space, l3) := finish lx state l2 hash backup in
+        if space then next_tok f lx sc l3 else Some (tok, l3)
+    end.
+  Proof. reflexivity. Qed.
+
+  Lemma rewind_src l o : l_src (rewind lx l o) = l_src l.
+  Proof. unfold rewind. destruct (read_char _ _ _) as [[a b] c]. reflexivity. Qed.
+
+  Lemma attempt_ok l : linv lx l ->
+    exists st l2 h2 b2, dfa_loop (inner l) lx start (tok_start l) 0 None = Some (st, l2, h2, b2) /\
+      forall tok sp l3, finish lx st l2 h2 b2 = (tok, sp, l3) ->
+        linv lx l3 /\ same (tok_start l) l3 /\
+        (l_off l < l_off l3 \/ (l_off l = slen l /\ l_off l3 = l_off l /\ tok = 0 /\ sp = false)).
+  Proof.
+    intros Hl. pose proof (linv_tokfields lx l (l_off l) (l_line l) (l_off l - l_lineoff l + 1) Hl) as Hl1.
+    fold (tok_start l) in Hl1. set (l1 := tok_start l) in *.
+    destruct (wf_parts lx Hwf) as (W1 & W2 & _ & _ & _ & Wst & Wsym & _ & Wentry & _ & Winv).
+    destruct (Wst _ Hsc) as (Hs0 & Hs1). destruct (Wentry _ Hsc) as (Hstart & Heoi).
+    pose proof (li_off lx l Hl) as Hoff.
+    destruct (l_ch l <? 0) eqn:Ech.
+    - (* at the end of the input *)
+      assert (He : l_off l = slen l) by (apply (linv_ch lx l Hl); assumption).
+      destruct (linv_end lx l1 Hl1 He) as (Hc1 & Hsc1 & _).
+      change (@None (Z * Z * Z)) with (lift_backup None (l_off l1) 0 None).
+      rewrite (dfa_eoi lx (inner l) start l1 0 None None Ech).
+      unfold eoi_ok in Heoi. destruct (eoi_run (eoi_fuel t) t start None) as [[c b]|] eqn:Er; [|discriminate].
+      rewrite (eoi_run_mono _ _ _ _ _ Er (inner l)) by (unfold inner, eoi_fuel; lia).
+      exists c, l1, 0, (lift_backup b (l_off l1) 0 None). split; [reflexivity|].
+      intros tok sp l3 Ef.
+      (* the decision on the canonical empty input *)
+      destruct (finish_end_formula lx c b end_state eq_refl eq_refl eq_refl) as (le & Ee & _).
+      { intros l' [-> | ->]; [apply sub_nil|]. rewrite rewind_src. apply sub_nil. }
+      change (l_off end_state) with 0 in Ee. rewrite Ee in Heoi.
+      apply andb_true_iff in Heoi. destruct Heoi as [Ht Hspace]. apply Z.eqb_eq in Ht. apply negb_true_iff in Hspace.
+      (* the same decision here *)
+      destruct (rewind_ok lx l1 (l_off l1) Hl1 ltac:(unfold l1, tok_start, slen in *; cbn [l_off l_src] in *; lia)) as (R1 & R2 & R3).
+      destruct (finish_end_formula lx c b l1 Hc1 eq_refl Hsc1) as (l3' & E3 & Hl3).
+      { intros l' [-> | ->]; [apply sub_same|]. destruct R2 as (Rs & Rt & _). rewrite Rs, Rt, R3. apply sub_same. }
+      rewrite E3 in Ef. inversion Ef; subst tok sp l3. clear Ef.
+      destruct Hl3 as [-> | ->].
+      + split; [assumption|]. split; [apply same_refl|]. right. repeat split; assumption.
+      + split; [assumption|]. split; [assumption|]. right. split; [assumption|]. split; [exact R3|]. split; assumption.
+    - (* a character is available *)
+      assert (Hlt : l_off l < slen l).
+      { destruct (Z.eq_dec (l_off l) (slen l)) as [E|]; [|lia]. apply (linv_ch lx l Hl) in E. congruence. }
+      unfold inner. cbn [dfa_loop]. rewrite (proj2 (Z.ltb_ge start 0) Hs0).
+      change (l_ch l1) with (l_ch l). rewrite Ech.
+      set (y := lookup_sym (symbol_map t) (l_ch l)). set (st := cell t start y).
+      assert (Hy : 1 <= y < num_symbols t) by apply Wsym.
+      assert (Hcell : (0 <=? st) || (st =? action_start t - inv_act lx) = true).
+      { unfold start_ok in Hstart. rewrite forallb_forall in Hstart. apply (Hstart y).
+        apply in_map_iff. exists (y - 1). split; [lia|]. apply zrange_in. lia. }
+      assert (Hast : action_start t <= -1) by (unfold action_start; lia).
+      destruct (advance_ok lx l1 Hl1 Hlt) as (Ha & Hsame & Hao & Hasc).
+      destruct (Z.leb_spec 0 st) as [Hnn|Hneg].
+      + rewrite (proj2 (Z.gtb_lt st (action_start t)) ltac:(lia)), (proj2 (Z.ltb_ge st 0) Hnn).
+        destruct (dfa_loop_ok lx Hwf (S (Z.to_nat (slen l - l_off l) + Z.to_nat (nstates t))) st (advance lx l1)
+                    (wrap32u (0 * 31 + l_ch l)) None) as (st2 & l2 & h2 & b2 & E & P1 & P2 & P3 & P4 & P5).
+        { pose proof (remaining_advance lx l1 Hl1 Hlt) as Hr. unfold remaining in *. change (slen l1) with (slen l) in Hr.
+          change (l_off l1) with (l_off l) in Hr. lia. }
+        { assumption. }
+        { apply cell_range; [assumption|lia|lia]. }
+        { destruct Hsame as (_ & Ht & _). rewrite Ht, Hao. change (l_tokoff l1) with (l_off l). change (l_off l1) with (l_off l) in Hasc. lia. }
+        { exact I. }
+        exists st2, l2, h2, b2. split; [exact E|]. intros tok sp l3 Ef.
+        assert (Ht2 : l_tokoff l2 = l_off l).
+        { destruct P3 as (_ & T2 & _). destruct Hsame as (_ & T1 & _). rewrite T2, T1. reflexivity. }
+        pose proof (finish_progress lx st2 l2 h2 b2 P2 ltac:(lia)) as Fp. rewrite Ef in Fp.
+        destruct Fp as (F1 & F2 & F3).
+        { rewrite Ht2. change (l_off l1) with (l_off l) in Hasc. lia. }
+        { assumption. }
+        split; [assumption|]. split; [eapply same_trans; [exact Hsame|eapply same_trans; eauto]|].
+        left. destruct F2 as (_ & T3 & _). rewrite T3, Ht2 in F3. assumption.
+      + cbn [orb] in Hcell. apply Z.eqb_eq in Hcell.
+        assert (Egt : (st >? action_start t) = false) by (rewrite Z.gtb_ltb; apply Z.ltb_ge; lia).
+        rewrite Egt. cbn [dfa_loop]. rewrite (proj2 (Z.ltb_lt st 0) Hneg).
+        exists st, l1, 0, None. split; [reflexivity|]. intros tok sp l3 Ef.
+        destruct (finish_stuck lx Hwf l1 0 Hl1 eq_refl Hlt) as (tok' & Es).
+        rewrite Hcell, Es in Ef. inversion Ef; subst tok sp l3. clear Ef.
+        destruct (linv_mid lx l1 Hl1 Hlt) as (_ & Hscan & _).
+        destruct (rewind_ok lx l1 (l_scan l1) Hl1 ltac:(pose proof (li_off lx l1 Hl1); lia)) as (R1 & R2 & R3).
+        split; [assumption|]. split; [assumption|]. left. change (l_scan l) with (l_scan l1). rewrite R3. exact (proj1 Hscan).
+  Qed.
+End Next2.
+
+Section Next3.
+  Variable lx : lexer.
+  Hypothesis Hwf : wf_lexer_tables lx = true.
+  Variable sc : Z.
+  Notation t := (lx_tables lx).
+  Hypothesis Hsc : In (nthZ (state_map t) sc) (state_map t).
+
+  (* what one call of Next guarantees, l0 being the state before the call *)
+  Definition tok_facts (l0 : lstate) (tok : Z) (l' : lstate) : Prop :=
+    linv lx l' /\ l_src l' = l_src l0 /\ l_off l0 <= l_tokoff l' /\ l_tokoff l' <= l_off l' /\
+    (l_tokoff l' < l_off l' \/ (tok = 0 /\ l_off l' = slen l' /\ l_tokoff l' = l_off l')) /\
+    (lx_token_line lx = true -> l_tokline l' = 1 + count_nl (firstn (Z.to_nat (l_tokoff l')) (l_src l'))) /\
+    (lx_token_line lx && lx_token_column lx = true ->
+       l_tokcol l' = l_tokoff l' - after_last_nl (firstn (Z.to_nat (l_tokoff l')) (l_src l')) 0 0 + 1).
+
+  Lemma next_tok_ok fuel : forall l, (remaining l < fuel)%nat -> linv lx l ->
+    exists tok l', next_tok fuel lx sc l = Some (tok, l') /\ tok_facts l tok l'.
+  Proof.
+    induction fuel as [|f IH]; intros l Hf Hl; [lia|].
+    rewrite (next_tok_unfold lx sc f l).
+    destruct (attempt_ok lx Hwf sc Hsc l Hl) as (st & l2 & h2 & b2 & E & Hfin).
+    rewrite E. destruct (finish lx st l2 h2 b2) as [[tok sp] l3] eqn:Ef.
+    destruct (Hfin tok sp l3 eq_refl) as (Hl3 & (S1 & S2 & S3 & S4) & Hprog).
+    cbn [tok_start l_src l_tokoff l_tokline l_tokcol] in S1, S2, S3, S4.
+    pose proof (li_off lx l Hl) as Hoff. pose proof (li_off lx l3 Hl3) as Hoff3.
+    assert (Hslen : slen l3 = slen l) by (unfold slen; rewrite S1; reflexivity).
+    destruct sp.
+    - destruct Hprog as [Hp|(_ & _ & _ & Hsp)]; [|discriminate].
+      destruct (IH l3) as (tok' & l' & En & F1 & F2 & F3 & F4 & F5 & F6 & F7); [unfold remaining in *; lia|assumption|].
+      exists tok', l'. split; [exact En|].
+      split; [assumption|]. split; [congruence|]. split; [lia|]. split; [assumption|].
+      split; [|split; assumption].
+      destruct F5 as [F5|(A & B & C)]; [left; assumption|right; repeat split; assumption].
+    - exists tok, l3. split; [reflexivity|].
+      split; [assumption|]. split; [assumption|]. split; [lia|].
+      split; [destruct Hprog as [Hp|(A & B & _)]; lia|].
+      split; [destruct Hprog as [Hp|(A & B & C & _)]; [left; lia|right; repeat split; try assumption; lia]|].
+      split.
+      + intros Htl. rewrite S3, S2, S1. exact (li_line lx l Hl Htl).
+      + intros Htc. rewrite S4, S2, S1, (li_lineoff lx l Hl Htc). reflexivity.
+  Qed.
+
+  (* (a) next_terminates: the fuel 1 + remaining bytes is always enough *)
+  Theorem next_terminates l : linv lx l -> exists tok l', next_tok (next_fuel l) lx sc l = Some (tok, l') /\ tok_facts l tok l'.
+  Proof. intros Hl. apply next_tok_ok; [unfold next_fuel; lia|assumption]. Qed.
+
+  (* eoi_repeats: at the end of the input Next answers end-of-input and stays there *)
+  Theorem eoi_repeats l : linv lx l -> l_off l = slen l ->
+    exists l', next_tok (next_fuel l) lx sc l = Some (0, l') /\ linv lx l' /\ l_src l' = l_src l /\
+               l_off l' = slen l' /\ l_tokoff l' = slen l'.
+  Proof.
+    intros Hl He. destruct (next_terminates l Hl) as (tok & l' & E & F1 & F2 & F3 & F4 & F5 & _).
+    pose proof (li_off lx l' F1) as Ho'. assert (Hs : slen l' = slen l) by (unfold slen; rewrite F2; reflexivity).
+    destruct F5 as [F5|(A & B & C)]; [lia|]. subst tok.
+    exists l'. split; [exact E|]. split; [assumption|]. split; [assumption|]. split; [assumption|]. lia.
+  Qed.
+
+  (* the observable stream: tokens in order, non-empty, the last one end-of-input; lines and columns of first bytes *)
+  Inductive stream_ok (src : list Z) : Z -> list (list Z) -> Prop :=
+  | SO_eoi lo s e ln col : lo <= s <= e -> pos_ok src s ln col -> stream_ok src lo [[0; s; e; ln; col]]
+  | SO_tok lo tok s e ln col rest : tok <> 0 -> lo <= s -> s < e -> pos_ok src s ln col ->
+      stream_ok src e rest -> stream_ok src lo ([tok; s; e; ln; col] :: rest)
+  with pos_ok (src : list Z) : Z -> Z -> Z -> Prop :=
+  | PO s ln col :
+      (lx_token_line lx = true -> ln = 1 + count_nl (firstn (Z.to_nat s) src)) ->
+      (lx_token_line lx && lx_token_column lx = true -> col = s - after_last_nl (firstn (Z.to_nat s) src) 0 0 + 1) ->
+      pos_ok src s ln col.
+
+  (* (c) tokens_finite_and_end_in_eoi: at most 1 + remaining bytes calls of Next *)
+  Theorem tokens_finite_and_end_in_eoi n : forall l, (remaining l < n)%nat -> linv lx l ->
+    exists toks, lex_all n lx sc l = Some toks /\ stream_ok (l_src l) (l_off l) toks.
+  Proof.
+    induction n as [|n IH]; intros l Hn Hl; [lia|]. cbn [lex_all].
+    destruct (next_terminates l Hl) as (tok & l' & E & F1 & F2 & F3 & F4 & F5 & F6 & F7). rewrite E.
+    assert (Hpos : pos_ok (l_src l) (l_tokoff l') (l_tokline l') (l_tokcol l')) by (constructor; rewrite <- F2; assumption).
+    destruct (Z.eqb_spec tok 0) as [->|Hne].
+    - eexists. split; [reflexivity|]. unfold obs. apply SO_eoi; [lia|assumption].
+    - destruct F5 as [F5|(A & _)]; [|congruence].
+      pose proof (li_off lx l' F1) as Ho'. assert (Hs : slen l' = slen l) by (unfold slen; rewrite F2; reflexivity).
+      destruct (IH l') as (rest & Er & Hr); [unfold remaining in *; lia|assumption|].
+      rewrite Er. eexists. split; [reflexivity|]. unfold obs. apply SO_tok; try assumption. rewrite <- F2. assumption.
+  Qed.
+End Next3.
+
+(* ------------------------------------------------------------------ the extracted (capped) stream never runs out of fuel *)
+Section Run.
+  Variable lx : lexer.
+  Hypothesis Hwf : wf_lexer_tables lx = true.
+  Variable sc : Z.
+  Hypothesis Hsc : In (nthZ (state_map (lx_tables lx)) sc) (state_map (lx_tables lx)).
+
+  Lemma next_any_fuel l : linv lx l ->
+    exists tok l', next_tok (S (S (length (l_src l)))) lx sc l = Some (tok, l') /\ linv lx l' /\ l_src l' = l_src l.
+  Proof.
+    intros Hl. destruct (next_tok_ok lx Hwf sc Hsc (S (S (length (l_src l)))) l) as (tok & l' & E & F1 & F2 & _).
+    - pose proof (li_off lx l Hl). unfold remaining, slen in *. lia.
+    - assumption.
+    - exists tok, l'. auto.
+  Qed.
+
+  Lemma stream_no_timeout cap : forall l, linv lx l -> ~ In [-3] (stream cap lx sc l).
+  Proof.
+    induction cap as [|c IH]; intros l Hl; cbn [stream].
+    - intros [H|[]]; discriminate.
+    - destruct (next_any_fuel l Hl) as (tok & l1 & E1 & H1 & S1). rewrite E1.
+      destruct (tok =? 0).
+      + destruct (next_any_fuel l1 H1) as (tok2 & l2 & E2 & H2 & S2). rewrite S1 in E2. rewrite E2.
+        destruct (next_any_fuel l2 H2) as (tok3 & l3 & E3 & H3 & S3). rewrite S2, S1 in E3. rewrite E3.
+        unfold obs. intros [H|[H|[H|[]]]]; discriminate.
+      + intros [H|H]; [unfold obs in H; discriminate|]. exact (IH l1 H1 H).
+  Qed.
+
+  Theorem run_lexer_never_out_of_fuel src bom : bytes_ok src -> ~ In [-3] (run_lexer lx sc src bom).
+  Proof.
+    intros Hsrc. destruct (init_ok lx src Hsrc) as (Hi & Hs & Ho). unfold run_lexer.
+    destruct src as [|b0 [|b1 [|b2 r]]]; try (apply stream_no_timeout; assumption).
+    destruct (bom && (b0 =? 239) && (b1 =? 187) && (b2 =? 191)); [|apply stream_no_timeout; assumption].
+    apply stream_no_timeout. apply rewind_ok; [assumption|unfold slen; rewrite Hs; cbn [length]; lia].
+  Qed.
+End Run.
